@@ -425,6 +425,8 @@ Definition dispatch (kind : string) (args : list string) : string :=
              else if String.eqb w "flags" then out3 tab_flags "-" "-"
              else if String.eqb w "offsets" then out3 tab_offsets "-" "-"
              else if String.eqb w "fields" then out3 tab_fields "-" "-"
+             (* the model computes every length in unbounded integers: no 8-bit arithmetic may exist in the decoders *)
+             else if String.eqb w "widths" then out3 "none" "-" "-"
              else BADARGS
     | _ => BADARGS
     end
